@@ -1175,7 +1175,7 @@ Definition simple_types : list (Z * Z) :=
 
 Lemma mach_size_types t : 0 < mach_size t -> exists c1 c2, t = [c1; c2] /\ In (c1, c2) simple_types.
 Proof.
-  unfold mach_size. destruct t as [|c1 [|c2 [|c3 u]]]; try lia. intros H. exists c1, c2. split; [reflexivity|].
+  unfold mach_size. intros H. destruct t as [|c1 [|c2 [|c3 u]]]; cbv iota in H; try lia. exists c1, c2. split; [reflexivity|].
   destruct (Z.eqb_spec c2 49) as [->|N1]; [|destruct (Z.eqb_spec c2 52) as [->|N2]; [|destruct (Z.eqb_spec c2 56) as [->|N3]]].
   - destruct (Z.eqb_spec c1 67) as [->|]; [cbn; tauto|]. destruct (Z.eqb_spec c1 66) as [->|]; [cbn; tauto|].
     cbn in H. rewrite !Bool.andb_false_r in H. cbn in H. lia.
